@@ -120,6 +120,12 @@ func CheckPostings(r *Report, tag string, seg segment.Segment, m *model.Seg, o P
 			if n%2 == 0 {
 				prePL, preIt = rePL, reIt
 				r.Inc("postings_prealloc_reuse", 1)
+			} else if n%4 == 1 {
+				// whatever a lookup that misses hands out (possibly shared "empty"
+				// sentinels) is passed back as preallocation for this hit
+				if mpl, err := dict.PostingsList([]byte("\xfe\xfemiss"), nil, nil); err == nil && mpl != nil {
+					prePL, preIt = mpl, mpl.Iterator(true, true, true, nil)
+				}
 			}
 			pl, err := dict.PostingsList([]byte(t), nil, prePL)
 			if err != nil || pl == nil {
@@ -134,7 +140,7 @@ func CheckPostings(r *Report, tag string, seg segment.Segment, m *model.Seg, o P
 			where := tag + ": " + f + "/" + short([]byte(t))
 			i := 0
 			for {
-				if i == 1 && n%3 == 0 {
+				if i == 1 && (n%3 == 0 || n%4 == 1) {
 					// in the middle of this walk: a lookup that misses must be empty and
 					// must not disturb the walk (shared "empty" sentinels stay empty)
 					if mpl, err := dict.PostingsList([]byte("\xfe\xfemiss"), nil, nil); err != nil || mpl == nil || mpl.Count() != 0 {
